@@ -446,3 +446,5 @@ def check(ctx, rep):
     keyedrules.order_bearing(ctx, rep, "C06.KEYED")
     from .c01 import w_rule
     w_rule(ctx, rep, "C06.COW", lambda h, t: h.family in ("sequence", "mapping", "set"))
+    from .c03 import e_rule
+    e_rule(ctx, rep, "C06.CHECKFIRST")     # nothing is written to (or removed from) the container before the new element passed its check
